@@ -14,6 +14,10 @@ def call(mod, pb):
     return mod.solve_yajilin(pb["h"], pb["w"], pb["grid"])
 
 
+def ncand(pb):
+    return 2 ** (L.n_loop_edges(pb['h'], pb['w']) + pb['h'] * pb['w'])
+
+
 def encode(pb):
     kind, num = [], []
     for row in pb["grid"]:
@@ -40,7 +44,7 @@ def families(tier, rng):
         for g in L.all_grids(h, w, _cellvals(2)):
             yield {"h": h, "w": w, "grid": g}
     # one clue anywhere (edge and interior, zero-valued included), rest plain
-    for (h, w) in [(2, 2), (2, 3), (3, 2), (3, 3), (1, 4), (4, 1)]:
+    for (h, w) in [(2, 2), (2, 3), (3, 2), (1, 4), (4, 1), (1, 5)] + ([(2, 4), (4, 2)] if th else []):
         one = []
         for y in range(h):
             for x in range(w):
@@ -52,12 +56,8 @@ def families(tier, rng):
             yield {"h": h, "w": w, "grid": g}
         for _ in range(60 if th else 8):
             yield {"h": h, "w": w, "grid": L.random_grid(rng, h, w, _cellvals(2), 0.75)}
-    for (h, w) in [(3, 4), (4, 3)]:
-        for _ in range(30 if th else 4):
-            yield {"h": h, "w": w, "grid": L.random_grid(rng, h, w, _cellvals(2), 0.8)}
 
 
-MAX_ANSWERS = 600000
 
 
 def tier2(tier, rng):
